@@ -618,6 +618,9 @@ impl CredentialStore for Shared<RefStore> {
 pub enum UvOutcome {
     Ok { presence: bool, verification: bool },
     Err(u8),
+    /// a platform whose verification is locked out: asked for verification it fails with this
+    /// status, asked for presence alone it reports presence (the answer depends on the question)
+    Lockout(u8),
 }
 
 /// `UvOutcome::Err(UV_PANICS)`: the scripted user-validation method panics instead of answering
@@ -776,7 +779,8 @@ impl UserValidationMethod for ScriptedUv {
         let (r, logged) = match self.log.answer().unwrap_or(self.outcome) {
             UvOutcome::Ok { presence: p, verification: v } => (Ok(UserCheck { presence: p, verification: v }), Ok((p, v))),
             UvOutcome::Err(UV_PANICS) => panic!("injected: the user-validation method panicked"),
-            UvOutcome::Err(b) => {
+            UvOutcome::Lockout(_) if !verification => (Ok(UserCheck { presence: true, verification: false }), Ok((true, false))),
+            UvOutcome::Err(b) | UvOutcome::Lockout(b) => {
                 let e = Ctap2Error::try_from(b).unwrap_or(Ctap2Error::OperationDenied);
                 (Err(e), Err(b))
             }
